@@ -10,6 +10,7 @@
 #pragma once
 #include "c15_ref.hpp"
 #include "mc.hpp"
+#include <algorithm>
 #include <cstdlib>
 #include <cstring>
 #include <memory>
@@ -100,59 +101,73 @@ namespace c15
             static const char *n[] = {"putchar", "newdata", "backspace", "delete", "left", "right", "reset", "getline"};
             return n[k];
         }
-        std::string opname(int i) override
+        static std::string opstr(int kind, int arg)
         {
-            const Op &o = ops[i];
-            if (o.kind == 0)
-                return mc::fmt("putchar('%c')", o.arg);
-            if (o.kind <= 3)
-                return mc::fmt("%s(%d)", kname(o.kind), o.arg);
-            return kname(o.kind);
+            if (kind == 0)
+                return mc::fmt("putchar('%c')", arg);
+            if (kind <= 3)
+                return mc::fmt("%s(%d)", kname(kind), arg);
+            return kname(kind);
         }
+        std::string opname(int i) override { return opstr(ops[i].kind, ops[i].arg); }
         bool apply(int i) override
         {
             const Op &o = ops[i];
             if (o.kind >= 1 && o.kind <= 3 && o.arg > (int)cap + 1)
                 return false;
-            const char *kn = kname(o.kind);
+            run(o.kind, o.arg);
+            return true;
+        }
+        // bytes handed to newdata: c d e f ... (distinct neighbours, so a misplaced block shows)
+        static const std::string &pattern()
+        {
+            static std::string p;
+            if (p.empty())
+                for (int i = 0; i < 600; i++)
+                    p += (char)('c' + i % 20);
+            return p;
+        }
+        // one operation on the real object and on the reference, all oracles; false = violation reported
+        bool run(int kind, int arg)
+        {
+            const char *kn = kname(kind);
             mc::crash_context("%s%s", pre.c_str(), kn);
             bool mid = rf.midline();
             bool full = rf.room() == 0;
             int got = NORET, want = NORET;
             const char *gl = nullptr;
-            switch (o.kind)
+            switch (kind)
             {
             case 0:
-                got = sl.putchar((char)o.arg);
-                want = rf.putchar((char)o.arg);
+                got = sl.putchar((char)arg);
+                want = rf.putchar((char)arg);
                 if (mid || full)
                     mc::nontrivial();
                 mc::outcome(mc::fmt("putchar.%d%s", want, mid ? ".mid" : ""));
                 break;
             case 1:
             {
-                static const char letters[] = "cdefghij";
-                Exact d(letters, (size_t)o.arg);
-                bool clamp = o.arg > (int)rf.room();
-                got = sl.newdata(d.p, o.arg);
-                want = rf.newdata(letters, o.arg);
-                if (clamp || (mid && o.arg))
+                Exact d(pattern().data(), (size_t)arg);
+                bool clamp = arg > (int)rf.room();
+                got = sl.newdata(d.p, arg);
+                want = rf.newdata(pattern().data(), arg);
+                if (clamp || (mid && arg))
                     mc::nontrivial();
                 mc::outcome(mc::fmt("newdata.%d.%s%s", want, clamp ? "clamped" : "fits", mid ? ".mid" : ""));
                 break;
             }
             case 2:
-                if ((unsigned)o.arg > rf.cur || (mid && o.arg))
+                if ((unsigned)arg > rf.cur || (mid && arg))
                     mc::nontrivial();
-                got = sl.backspace((unsigned)o.arg);
-                want = rf.backspace((unsigned)o.arg);
+                got = sl.backspace((unsigned)arg);
+                want = rf.backspace((unsigned)arg);
                 mc::outcome(mc::fmt("backspace.%d%s", want, mid ? ".mid" : ""));
                 break;
             case 3:
-                if ((unsigned)o.arg > rf.s.size() - rf.cur || (mid && o.arg))
+                if ((unsigned)arg > rf.s.size() - rf.cur || (mid && arg))
                     mc::nontrivial();
-                got = sl.del((unsigned)o.arg);
-                want = rf.del((unsigned)o.arg);
+                got = sl.del((unsigned)arg);
+                want = rf.del((unsigned)arg);
                 mc::outcome(mc::fmt("delete.%d", want));
                 break;
             case 4:
@@ -180,30 +195,41 @@ namespace c15
             unsigned len = sl.len(), cur = sl.cursor();
             if (!(cur <= len && len < cap))
             {
-                if (o.kind == 1 && len == cap)
+                if (kind == 1 && len == cap)
                     mc::violation(pre + "newdata.len_reaches_cap",
                                   "cap=%u: newdata(%d bytes) left len=%u cursor=%u; the line must stay shorter than its "
                                   "buffer (getline writes buf[len])",
-                                  cap, o.arg, len, cur);
+                                  cap, arg, len, cur);
                 else
                     mc::violation(pre + kn + ".bounds", "cap=%u: after %s len=%u cursor=%u violates 0<=cursor<=len<cap", cap,
-                                  opname(i).c_str(), len, cur);
-                return true;
+                                  opstr(kind, arg).c_str(), len, cur);
+                return false;
             }
-            std::string text(sl.data(), len);
-            if (text != rf.s || cur != rf.cur)
-                mc::violation(pre + kn + ".content", "cap=%u: after %s line='%s' cursor=%u, reference '%s' cursor=%u", cap,
-                              opname(i).c_str(), vis(text).c_str(), cur, vis(rf.s).c_str(), rf.cur);
+            bool ok = true;
+            if (len != rf.s.size() || memcmp(sl.data(), rf.s.data(), len) != 0 || cur != rf.cur)
+            {
+                mc::violation(pre + kn + ".content", "cap=%u: after %s line='%s' (len %u) cursor=%u, reference '%s' (len %zu) cursor=%u",
+                              cap, opstr(kind, arg).c_str(), vis(std::string(sl.data(), len)).c_str(), len, cur,
+                              vis(rf.s).c_str(), rf.s.size(), rf.cur);
+                ok = false;
+            }
             if (got != NORET && got != want)
-                mc::violation(pre + kn + ".retval", "cap=%u: %s returned %d, reference %d", cap, opname(i).c_str(), got, want);
+            {
+                mc::violation(pre + kn + ".retval", "cap=%u: %s returned %d, reference %d", cap, opstr(kind, arg).c_str(), got,
+                              want);
+                ok = false;
+            }
             if (gl)
             {
                 // the terminator must be in place and inside the buffer (ASan watches the write)
                 if (strnlen(gl, cap) != rf.s.size() || memcmp(gl, rf.s.data(), rf.s.size()) != 0)
+                {
                     mc::violation(pre + "getline.text", "cap=%u: getline() gave '%s', reference '%s'", cap,
                                   vis(std::string(gl, strnlen(gl, cap))).c_str(), vis(rf.s).c_str());
+                    ok = false;
+                }
             }
-            return true;
+            return ok;
         }
         std::string key() override
         {
@@ -463,6 +489,8 @@ namespace c15
         {
             rf.init(cap, hist);
             symp = keylevel ? &key_alphabet() : &raw_alphabet(true);
+            if ((int)(cap + 16) > sink.scr.w) // large capacities: prompt + cap + '^C' + margin
+                sink.scr.w = (int)(cap + 16) < (int)ref::Screen::MAXW ? (int)(cap + 16) : (int)ref::Screen::MAXW;
             vt.init_step(); // prompt
         }
         int nops() override { return (int)symp->size(); }
@@ -554,7 +582,7 @@ namespace c15
             std::string want = std::string(PROMPT) + rf.line.s; // <= 15 chars: no allocation
             int wantcol = (int)strlen(PROMPT) + (int)rf.line.cur;
             bool rowok = memcmp(sink.scr.row, want.data(), want.size()) == 0;
-            for (size_t k = want.size(); rowok && k < (size_t)ref::Screen::W; k++)
+            for (size_t k = want.size(); rowok && k < (size_t)sink.scr.w; k++)
                 rowok = sink.scr.row[k] == ' ';
             if (!rowok)
             {
@@ -678,6 +706,223 @@ namespace c15
         }
     };
 
+    // ================================================================ large capacities (tree shape)
+    // The BFS layers use capacities <= 5. The statement speaks about all capacities >= 2, and the
+    // counters (cap/len/cursor, the distances given to ESC[nD) must not be narrower than the
+    // line: these cases put the line, the cursor and the edit position on both sides of 127/128
+    // and 255/256. One case = (capacity, characters typed, cursor position, action); every call /
+    // byte inside the case is checked by the same oracles as in the BFS layers.
+    struct BigCase
+    {
+        unsigned cap, fill, pos;
+    };
+    inline std::vector<BigCase> make_big_cases(bool sline)
+    {
+        static const unsigned caps[] = {127, 128, 255, 256, 257, 300};
+        std::vector<BigCase> v;
+        for (unsigned cap : caps)
+        {
+            std::vector<unsigned> fills = {cap + 3, cap - 1, cap - 2, 256, 255};
+            if (sline)
+            {
+                fills.push_back(257);
+                fills.push_back(254);
+                fills.push_back(2);
+                fills.push_back(0);
+                if (cap - 1 > 254)
+                    fills.push_back(cap - 1 - 254);
+            }
+            std::sort(fills.begin(), fills.end());
+            fills.erase(std::unique(fills.begin(), fills.end()), fills.end());
+            for (unsigned f : fills)
+            {
+                if (f > cap + 3)
+                    continue;
+                unsigned L = f < cap - 1 ? f : cap - 1; // what the line will hold
+                std::vector<unsigned> ps = {0, 1, 126, 127, 128, 129, 253, 254, 255, 256, 257, 258, L};
+                if (L)
+                    ps.push_back(L - 1);
+                std::sort(ps.begin(), ps.end());
+                ps.erase(std::unique(ps.begin(), ps.end()), ps.end());
+                for (unsigned p : ps)
+                    if (p <= L)
+                        v.push_back({cap, f, p});
+            }
+        }
+        return v;
+    }
+    inline char big_letter(unsigned i) { return (char)('a' + i % 26); }
+
+    template <class SL> void big_sline_body()
+    {
+        static const std::vector<BigCase> cases = make_big_cases(true);
+        static const char *actname[] = {"putchar",        "backspace(1)",   "backspace(pos)", "backspace(600)", "delete(1)",
+                                        "delete(rest)",   "delete(600)",    "newdata(1)",     "newdata(254)",   "newdata(255)",
+                                        "newdata(256)",   "newdata(cap)",   "newdata(cap+1)", "getline",        "reset+bulk fill",
+                                        "left/right sweep"};
+        const int NACT = 16;
+        BigCase bc = cases[mc::choose((int)cases.size())];
+        int act = mc::choose(NACT);
+        mc::describe("sline cap=%u: putchar x %u, left to position %u, then %s", bc.cap, bc.fill, bc.pos, actname[act]);
+        SlineModel<SL> m(bc.cap);
+        if (bc.fill > 126)
+            mc::nontrivial();
+        for (unsigned i = 0; i < bc.fill; i++) // the characters beyond cap-1 must be ignored
+            if (!m.run(0, big_letter(i)))
+                return;
+        while (m.rf.cur > bc.pos)
+            if (!m.run(4, 0))
+                return;
+        unsigned rest = (unsigned)m.rf.s.size() - m.rf.cur;
+        bool ok = true;
+        switch (act)
+        {
+        case 0:
+            ok = m.run(0, 'X');
+            break;
+        case 1:
+            ok = m.run(2, 1);
+            break;
+        case 2:
+            ok = m.run(2, (int)bc.pos);
+            break;
+        case 3:
+            ok = m.run(2, 600);
+            break;
+        case 4:
+            ok = m.run(3, 1);
+            break;
+        case 5:
+            ok = m.run(3, (int)rest);
+            break;
+        case 6:
+            ok = m.run(3, 600);
+            break;
+        case 7:
+            ok = m.run(1, 1);
+            break;
+        case 8:
+            ok = m.run(1, 254);
+            break;
+        case 9:
+            ok = m.run(1, 255);
+            break;
+        case 10:
+            ok = m.run(1, 256);
+            break;
+        case 11:
+            ok = m.run(1, (int)bc.cap);
+            break;
+        case 12:
+            ok = m.run(1, (int)bc.cap + 1);
+            break;
+        case 13:
+            ok = m.run(7, 0);
+            break;
+        case 14:
+            ok = m.run(6, 0) && m.run(1, (int)bc.fill) && m.run(7, 0) && m.run(4, 0) && m.run(1, 3);
+            break;
+        case 15:
+            for (int k = 0; k < 4 && ok; k++)
+                ok = m.run(4, 0);
+            for (int k = 0; k < 8 && ok; k++)
+                ok = m.run(5, 0);
+            break;
+        }
+        if (!ok)
+            return;
+        // the terminator lands inside the exactly-sized buffer; then walk to the end and back
+        if (!m.run(7, 0))
+            return;
+        while (m.rf.cur < m.rf.s.size())
+            if (!m.run(5, 0))
+                return;
+        if (!m.run(5, 0) || !m.run(4, 0) || !m.run(0, 'Y') || !m.run(7, 0))
+            return;
+        mc::outcome(mc::fmt("big.%s.cap%u", actname[act], bc.cap));
+    }
+
+    // M = ReadlineModel<RL> or VtermModel<VT>, history depth 2
+    template <class M> void big_term_body(bool is_vterm)
+    {
+        static const std::vector<BigCase> cases = make_big_cases(false);
+        static const char *actname[] = {"insert X",
+                                        "Backspace",
+                                        "Delete",
+                                        "Right x6 Left x3",
+                                        "Enter, second line, recall by Up/Down, Down from inside the long line, Enter",
+                                        "Ctrl-C, q, Enter",
+                                        "Enter(LF), Up, Backspace, Enter, Up, Up, Enter",
+                                        "ESC x, CR LF, a, LF"};
+        const int NACT = 8;
+        BigCase bc = cases[mc::choose((int)cases.size())];
+        int act = mc::choose(NACT);
+        mc::describe("%s cap=%u hist=2: type %u characters, Left to position %u, then %s", is_vterm ? "vterm" : "readline", bc.cap,
+                     bc.fill, bc.pos, actname[act]);
+        M m(bc.cap, 2, false);
+        mc::crash_context("%sbig.crash", m.pre.c_str());
+        if (bc.fill > 126)
+            mc::nontrivial();
+        auto feed = [&](const char *p) {
+            for (; *p; p++)
+                if (!m.step((unsigned char)*p))
+                    return false;
+            return true;
+        };
+        auto rep = [&](const char *p, unsigned n) {
+            for (unsigned i = 0; i < n; i++)
+                if (!feed(p))
+                    return false;
+            return true;
+        };
+        for (unsigned i = 0; i < bc.fill; i++) // the characters beyond cap-1 must be ignored, echo included
+            if (!m.step((unsigned char)big_letter(i)))
+                return;
+        while (m.rf.line.cur > bc.pos)
+            if (!feed("\x1b[D"))
+                return;
+        bool ok = true;
+        switch (act)
+        {
+        case 0:
+            ok = feed("X") && feed("X");
+            break;
+        case 1:
+            ok = feed("\x08") && feed("\x08");
+            break;
+        case 2:
+            ok = feed("\x1b[3~") && feed("\x1b[3~");
+            break;
+        case 3:
+            ok = rep("\x1b[C", 6) && rep("\x1b[D", 3);
+            break;
+        case 4:
+            // the execute callback gets the whole long line; it is stored and recalled from an
+            // exactly-sized history buffer; the last Down leaves a long line from inside it
+            ok = feed("\r") && feed("zz\n") && feed("\x1b[A") && feed("\x1b[A") && feed("\x1b[A") && feed("\x1b[B") &&
+                 feed("\x1b[A") && rep("\x1b[D", 3) && feed("\x1b[B") && feed("\r");
+            break;
+        case 5:
+            ok = (is_vterm ? feed("\x03") : feed("\x08")) && feed("q\r");
+            break;
+        case 6:
+            ok = feed("\n") && feed("\x1b[A") && feed("\x08") && feed("\r") && feed("\x1b[A") && feed("\x1b[A") && feed("\n");
+            break;
+        case 7:
+            ok = feed("\x1bx") && feed("\r\n") && feed("a\n");
+            break;
+        }
+        if (!ok)
+            return;
+        // walk to the end of whatever line is there, one more Right (clamped), type one more character
+        while (m.rf.line.cur < m.rf.line.s.size())
+            if (!feed("\x1b[C"))
+                return;
+        if (!feed("\x1b[C") || !feed("Y") || !feed("\r"))
+            return;
+        mc::outcome(mc::fmt("big.act%d.cap%u", act, bc.cap));
+    }
+
     struct Depth
     {
         int quick, thorough;
@@ -691,6 +936,9 @@ namespace c15
     {
         std::string f = SL::flavour();
         mc::add_bfs(f + "_sline_cap2to5", [] { return std::unique_ptr<mc::Model>(new PickCap<SL>()); });
+        mc::add_check(f + "_big_sline", [] { big_sline_body<SL>(); });
+        mc::add_check(f + "_big_readline", [] { big_term_body<ReadlineModel<RL>>(false); });
+        mc::add_check(f + "_big_vterm", [] { big_term_body<VtermModel<VT>>(true); });
         for (unsigned cap = 2; cap <= 4; cap++)
         {
             mc::BfsOpts o;
